@@ -7,10 +7,11 @@ import LokiModel.Generated.C14Tables
 tuple / a node with `f` levels of Python recursion available; `specL` / `specKeep` / `specRoot`
 (`LokiModel/C14/Spec.lean`) is the reference rebuild written from the class docstring.
 
-The full statement `C14_transformer_full` is **false** for the unchanged code (`C14_transformer_full_false`); the
-failing inputs fall in two decidable classes, `KnownRevisit` (nodes spliced in by a one-to-many value are visited
-again) and `KnownMcond` (a `MultiConditional` case body made empty is dropped from `bodies`); outside them the
-statement holds with termination (`C14_transformer_eq_spec_partial`).  Likewise for the original tree
+The full statement `C14_transformer_full` is **false** for the current code (`C14_transformer_full_false`); the
+failing inputs fall in one decidable class, `KnownRevisit` (nodes spliced in by a one-to-many value are visited
+again); outside it the statement holds with termination (`C14_transformer_eq_spec_partial`).  A second class
+(a `MultiConditional` case body made empty was dropped from `bodies`) was repaired by the `fix:` commit recorded in
+`known_findings.json`; the old behaviour is kept as a regression statement in `LokiModel/Findings/C14.lean`.  Likewise for the original tree
 (`C14_noninplace_full_false`, class `KnownScopedUpdate`, `C14_noninplace_preserves_original_partial`).
 -/
 namespace LokiModel.C14
@@ -31,31 +32,29 @@ theorem C14_inject_is_parallel_substitution (m : Mapper) (o : List Node)
   have hf : fixedL m (tupleElems m) = true := by simpa [KnownRevisit] using hk
   exact injectAll_eq m hd (elemsNotKeys_of_fixed hf) o
 
-/-- **C14, result tree (tuple root), outside the two known classes**: for every mapper (a dict: distinct keys),
+/-- **C14, result tree (tuple root), outside the known class**: for every mapper (a dict: distinct keys),
 every tuple of trees, every `inplace`/`rebuild_scopes` setting and every recursion budget that covers the depth of
 the tree plus the depth of the deepest spliced node, the transformer terminates without raising and returns
 exactly the reference rebuild.
-`_partial`: the hypotheses `KnownRevisit m = false` and `KnownMcond m o = false` exclude the two classes on
-which the unchanged code deviates (see `C14_transformer_full_false`). -/
+`_partial`: the hypothesis `KnownRevisit m = false` excludes the class on which the code deviates
+(see `C14_transformer_full_false`). -/
 theorem C14_transformer_eq_spec_partial (cfg : Cfg) (m : Mapper) (o : List Node) (f D : Nat)
-    (hd : KeysDistinct m) (hk : KnownRevisit m = false) (hm : KnownMcond m o = false)
+    (hd : KeysDistinct m) (hk : KnownRevisit m = false)
     (hD : ∀ h ∈ tupleElems m, h.depth ≤ D) (hf : depthL o + D ≤ f) :
     ∃ r, visitList cfg m f o = .ok r ∧ r.res = specL m o := by
   have hfix : fixedL m (tupleElems m) = true := by simpa [KnownRevisit] using hk
-  have hs : safeL m o = true := by simpa [KnownMcond] using hm
-  exact list_step cfg m D hd hfix hD f (visit_spec cfg m D hd hfix hD f) o hs hf
+  exact list_step cfg m D hd hfix hD f (visit_spec cfg m D hd hfix hD f) o hf
 
 /-- the same for a root node that is not the key of a one-to-many mapping (which needs a containing tuple) -/
 theorem C14_transformer_node_eq_spec_partial (cfg : Cfg) (m : Mapper) (o : Node) (f D : Nat)
-    (hd : KeysDistinct m) (hk : KnownRevisit m = false) (hm : KnownMcond m [o] = false)
+    (hd : KeysDistinct m) (hk : KnownRevisit m = false)
     (hD : ∀ h ∈ tupleElems m, h.depth ≤ D) (hf : o.depth + D ≤ f)
     (hroot : ∀ hs, lookup m o ≠ some (.tuple hs)) :
     ∃ r, visitNode cfg m f o = .ok r ∧ r.res = specRoot m o := by
   have hfix : fixedL m (tupleElems m) = true := by simpa [KnownRevisit] using hk
-  have hs : safeN m o = true := by simpa [KnownMcond, safeL] using hm
   cases hl : lookup m o with
   | none =>
-    obtain ⟨r, hr, hres⟩ := visit_spec cfg m D hd hfix hD f o hf hs (Or.inl hl)
+    obtain ⟨r, hr, hres⟩ := visit_spec cfg m D hd hfix hD f o hf (Or.inl hl)
     exact ⟨r, hr, by simp [specRoot, hl, hres]⟩
   | some h =>
     obtain ⟨f', hf'⟩ : ∃ f', f = f' + 1 := ⟨f - 1, by have := depth_pos o; omega⟩
@@ -81,27 +80,21 @@ def errOf (x : Except Err LRes) : Option Err :=
 
 private def a (n : Nat) : Node := .mk .assign n []
 
-/-- witness (replayed on the real code, class `multiconditional-empty-body-dropped`): removing the only statement
-of `CASE (1)` drops that body from `bodies`, so `CASE (1)` now runs what was the body of `CASE (2)` -/
+/-- witness (replayed on the real code, class `spliced-nodes-revisited`): `{a1: (Loop[a2], a1), a2: None}` — the
+spliced loop is visited again and loses its body statement, although a replacement is not to be revisited -/
 theorem C14_transformer_full_false : ¬ C14_transformer_full := by
   intro h
-  let m : Mapper := [(a 1, .drop)]
-  let o : List Node := [.mk .mcond 0 [[a 1], [a 2], [a 3]]]
-  have hv : resOf (visitList ⟨false, false⟩ m 3 o) = some [.mk .mcond 0 [[a 2], [a 3]]] := by decide
-  cases hr : visitList ⟨false, false⟩ m 3 o with
+  let m : Mapper := [(a 1, .tuple [.mk .loop 0 [[a 2]], a 1]), (a 2, .drop)]
+  let o : List Node := [a 1]
+  have hv : resOf (visitList ⟨false, false⟩ m 4 o) = some [.mk .loop 0 [[]], a 1] := by decide
+  cases hr : visitList ⟨false, false⟩ m 4 o with
   | error e => simp [hr, resOf] at hv
   | ok r =>
-    have := h ⟨false, false⟩ m o 3 r ⟨rfl, trivial⟩ hr
+    have := h ⟨false, false⟩ m o 4 r ⟨rfl, rfl, trivial⟩ hr
     simp only [hr, resOf, Option.some.injEq] at hv
     rw [hv] at this
     revert this
     decide
-
-/-- second witness (class `spliced-nodes-revisited`): `{a1: (Loop[a2], a1), a2: None}` — the spliced loop is
-visited again and loses its body statement, although a replacement is not to be revisited -/
-example : resOf (visitList ⟨false, false⟩ [(a 1, .tuple [.mk .loop 0 [[a 2]], a 1]), (a 2, .drop)] 4 [a 1])
-      = some [.mk .loop 0 [[]], a 1]
-    ∧ specL [(a 1, .tuple [.mk .loop 0 [[a 2]], a 1]), (a 2, .drop)] [a 1] = [.mk .loop 0 [[a 2]], a 1] := by decide
 
 /-- … a spliced key that precedes its splicer in the dict raises `AttributeError` … -/
 example : errOf (visitList ⟨false, false⟩ [(a 2, .tuple [a 4]), (a 1, .tuple [a 2, a 3])] 4 [a 1]) = some .attr := by decide
@@ -110,16 +103,22 @@ example : errOf (visitList ⟨false, false⟩ [(a 2, .tuple [a 4]), (a 1, .tuple
 example : errOf (visitList ⟨false, false⟩ [(a 1, .tuple [.mk .loop 0 [[a 1]], a 1])] 9 [a 1]) = some .fuel := by decide
 
 /-- non-vacuity of `C14_transformer_eq_spec_partial`: duplicates of the key, a one-to-many value containing the key,
-a removal and a replacement below, a `MultiConditional` that keeps its bodies -/
+a removal and a replacement below, a `MultiConditional` whose first case body becomes empty and keeps its place -/
 example :
     let m : Mapper := [(.mk .loop 1 [[a 1, a 2]], .tuple [.mk .comment 7 [], .mk .loop 1 [[a 1, a 2]]]),
                        (a 1, .drop), (a 2, .node (.mk .sect 5 [[a 1]]))]
-    let o : List Node := [.mk .loop 1 [[a 1, a 2]], .mk .mcond 0 [[a 1, a 3], [a 2]], .mk .loop 1 [[a 1, a 2]]]
-    KeysDistinct m ∧ KnownRevisit m = false ∧ KnownMcond m o = false ∧ depthL o + 1 ≤ 4
+    let o : List Node := [.mk .loop 1 [[a 1, a 2]], .mk .mcond 0 [[a 1], [a 2], [a 3]], .mk .loop 1 [[a 1, a 2]]]
+    KeysDistinct m ∧ KnownRevisit m = false ∧ depthL o + 1 ≤ 4
       ∧ resOf (visitList ⟨false, true⟩ m 4 o) = some (specL m o)
-      ∧ specL m o = [.mk .comment 7 [], .mk .loop 1 [[.mk .sect 5 [[a 1]]]], .mk .mcond 0 [[a 3], [.mk .sect 5 [[a 1]]]],
+      ∧ specL m o = [.mk .comment 7 [], .mk .loop 1 [[.mk .sect 5 [[a 1]]]], .mk .mcond 0 [[], [.mk .sect 5 [[a 1]]], [a 3]],
                      .mk .comment 7 [], .mk .loop 1 [[.mk .sect 5 [[a 1]]]]] := by
-  refine ⟨⟨by decide, by decide, by decide, trivial⟩, by decide, by decide, by decide, by decide, by decide⟩
+  refine ⟨⟨by decide, by decide, by decide, trivial⟩, by decide, by decide, by decide, by decide⟩
+
+/-- every child tuple of an unmapped node keeps its position in the reference rebuild — in particular the case bodies
+of a `MultiConditional` stay aligned with its `values` (with `C14_transformer_eq_spec_partial`: in the result) -/
+theorem C14_spec_keeps_child_positions (m : Mapper) (o : Node) : (specKeep m o).kids.length = o.kids.length := by
+  cases o with
+  | mk k l ks => simp [specKeep, Node.kids, specLL_eq]
 
 /-! ## the original tree -/
 
@@ -222,5 +221,63 @@ theorem C14_rebuilt_covers_partial (cfg : Cfg) (m : Mapper) (o : List Node) (f :
 example : reachedL [(a 1, .drop), (.mk .loop 0 [[a 3]], .node (a 2)), (a 4, .tuple [a 5, a 4])]
       [.mk .sect 0 [[a 1, .mk .loop 0 [[a 3]], a 4]]]
     = [.mk .sect 0 [[a 1, .mk .loop 0 [[a 3]], a 4]], a 1, .mk .loop 0 [[a 3]], a 4] := by decide
+
+/-! ## NestedTransformer -/
+
+/-- **C14, NestedTransformer, outside the known class**: for every mapper whose values are `None` or the key itself with
+other non-traversable attributes (`KnownNested m = false`; the way Loki uses it), every tuple of trees, every setting
+and every recursion budget covering the depth of the tree, `NestedTransformer.visit` terminates without raising and its
+result is the depth-first reference rebuild `NSpecL`.  `_partial`: excludes the class `nested-replacement-built-from-key`
+(see `C14_nested_full_false`). -/
+theorem C14_nested_eq_spec_partial (cfg : Cfg) (m : Mapper) (o : List Node) (f : Nat)
+    (hk : KnownNested m = false) (hf : depthL o ≤ f) :
+    ∃ r, nestedList cfg m f o = .ok r ∧ NSpecL m o r.res :=
+  nested_list_step m hk (nestedNode cfg m f) o
+    (fun y hy => nested_spec cfg m hk f y (by have := depthL_mem hy; omega))
+
+/-- the same for a root node -/
+theorem C14_nested_node_eq_spec_partial (cfg : Cfg) (m : Mapper) (o : Node) (f : Nat)
+    (hk : KnownNested m = false) (hf : o.depth ≤ f) :
+    ∃ r, nestedNode cfg m f o = .ok r ∧ NSpecN m o r.res :=
+  nested_spec cfg m hk f o hf
+
+/-- full statement (partial-correctness form) -/
+def C14_nested_full : Prop :=
+  ∀ (cfg : Cfg) (m : Mapper) (o : List Node) (f : Nat) (r : LRes),
+    nestedList cfg m f o = .ok r → NSpecL m o r.res
+
+def nresOf (x : Except Err LRes) : Option (List Node) :=
+  match x with
+  | .ok r => some r.res
+  | .error _ => none
+
+/-- witness (replayed on the real code, class `nested-replacement-built-from-key`): `NestedTransformer({a1: a2})` on
+`(a1,)` returns `(a1,)` — the replacement is rebuilt with the expression children of the key -/
+theorem C14_nested_full_false : ¬ C14_nested_full := by
+  intro h
+  let m : Mapper := [(a 1, .node (a 2))]
+  have hv : nresOf (nestedList ⟨false, false⟩ m 2 [a 1]) = some [a 1] := by decide
+  cases hr : nestedList ⟨false, false⟩ m 2 [a 1] with
+  | error e => simp [hr, nresOf] at hv
+  | ok r =>
+    have hs := h ⟨false, false⟩ m [a 1] 2 r hr
+    simp only [hr, nresOf, Option.some.injEq] at hv
+    rw [hv] at hs
+    obtain ⟨r', rs, hn, hl, heq⟩ := NSpecL_cons_inv hs
+    have hrs := NSpecL_nil_inv hl
+    subst hrs
+    have hlk : lookup m (a 1) = some (.node (a 2)) := by simp [m, lookup]
+    rcases NSpecN_inv hn with ⟨hd, _⟩ | ⟨h', ks', hd, hr'⟩ | ⟨ks', hd, _⟩
+    · rw [hlk] at hd; cases hd
+    · rw [hlk] at hd
+      cases hd
+      subst hr'
+      simp [a, Node.kind, Node.lbl] at heq
+    · rw [hlk] at hd; cases hd
+
+/-- non-vacuity: a section relabelled (non-traversable attribute), a statement removed below it -/
+example : KnownNested [(.mk .sect 1 [[a 1, a 2]], .node (.mk .sect 9 [[a 1, a 2]])), (a 2, .drop)] = false
+    ∧ nresOf (nestedList ⟨false, true⟩ [(.mk .sect 1 [[a 1, a 2]], .node (.mk .sect 9 [[a 1, a 2]])), (a 2, .drop)] 3
+        [.mk .sect 1 [[a 1, a 2]], a 2]) = some [.mk .sect 9 [[a 1]]] := by decide
 
 end LokiModel.C14
